@@ -9,6 +9,7 @@ import Glas.Model.DbCmd
 import Glas.Model.ConcCmd
 import Glas.Model.UnionFindCmd
 import Glas.Model.TySpecCmd
+import Glas.Model.ImportsCmd
 /-! The executable model behind a one-line-in, one-line-out protocol (tab-separated fields). -/
 open Glas
 
@@ -46,7 +47,10 @@ def dispatch (line : String) : String :=
                     | none =>
                       match TySpecCmd.run args with
                       | some r => r
-                      | none => "bad-op"
+                      | none =>
+                        match ImportsCmd.run args with
+                        | some r => r
+                        | none => "bad-op"
 
 partial def loop (h : IO.FS.Stream) (out : IO.FS.Stream) : IO Unit := do
   let line ← h.getLine
